@@ -5,6 +5,7 @@ package whr
 
 import (
 	"fmt"
+	"reflect"
 	"sort"
 	"strings"
 
@@ -328,6 +329,71 @@ type TS struct {
 }
 
 func (TS) TableName() string { return "tss" }
+
+// The other ways a model can declare its soft-delete column; all map to table tss.
+// TSP: pointer-typed field.
+type TSP struct {
+	ID        int64 `gorm:"primaryKey"`
+	Age       int64
+	Name      string
+	Nick      *string
+	Mark      int64
+	DeletedAt *gorm.DeletedAt
+}
+
+func (TSP) TableName() string { return "tss" }
+
+// SoftPart carries the column for TSE.
+type SoftPart struct {
+	DeletedAt gorm.DeletedAt
+}
+
+// TSE: the field comes from an embedded struct.
+type TSE struct {
+	ID   int64 `gorm:"primaryKey"`
+	Age  int64
+	Name string
+	Nick *string
+	Mark int64
+	SoftPart
+}
+
+func (TSE) TableName() string { return "tss" }
+
+// TSN: the field has another name and names its column by tag.
+type TSN struct {
+	ID      int64 `gorm:"primaryKey"`
+	Age     int64
+	Name    string
+	Nick    *string
+	Mark    int64
+	Removed gorm.DeletedAt `gorm:"column:deleted_at"`
+}
+
+func (TSN) TableName() string { return "tss" }
+
+// SoftVariants: name -> zero value of the model type.
+var SoftVariants = map[string]interface{}{"": TS{}, "ptr": TSP{}, "embedded": TSE{}, "named": TSN{}}
+
+// NewOne / NewSlice / IDsOf / IDOf: reflection helpers so that a harness can run one protocol over
+// every variant.
+func NewSoftOne(variant string) interface{} {
+	return reflect.New(reflect.TypeOf(SoftVariants[variant])).Interface()
+}
+func NewSoftSlice(variant string) interface{} {
+	return reflect.New(reflect.SliceOf(reflect.TypeOf(SoftVariants[variant]))).Interface()
+}
+func IDOf(one interface{}) int64 {
+	return reflect.Indirect(reflect.ValueOf(one)).FieldByName("ID").Int()
+}
+func IDsOf(slicePtr interface{}) []int64 {
+	v := reflect.Indirect(reflect.ValueOf(slicePtr))
+	out := []int64{}
+	for i := 0; i < v.Len(); i++ {
+		out = append(out, v.Index(i).FieldByName("ID").Int())
+	}
+	return out
+}
 
 // UseSoft selects the model the struct units, destinations and Model() calls use.
 var UseSoft bool
